@@ -61,6 +61,11 @@ pub struct NetSpec {
     pub latency_us: u64,
     pub jitter_us: u64,
     pub net_seed: u64,
+    /// 1 = blackhole, 2 = mute server: the peer vanishes (no later than the scenario's
+    /// vanish_at_us) right behind the first stream packet that announces a final offset
+    /// while an earlier packet of the same sender was lost - the receiver then knows the
+    /// size of the stream and still has a gap
+    pub vanish_on_fin: u8,
 }
 
 #[derive(Clone, Copy, Debug, PartialEq, Eq)]
@@ -165,7 +170,7 @@ fn half_from(v: &Value) -> HalfPlan {
 pub fn scenario_json(s: &Scenario) -> Value {
     json!({"transport": s.transport, "class": s.class, "key": s.key,
         "net": {"loss_ppm": s.net.loss_ppm, "burst": s.net.burst.map(|(a,b)| vec![a,b]), "drop_kth": s.net.drop_kth, "dup_ppm": s.net.dup_ppm, "forge_ppm": s.net.forge_ppm,
-                "latency_us": s.net.latency_us, "jitter_us": s.net.jitter_us, "net_seed": s.net.net_seed},
+                "latency_us": s.net.latency_us, "jitter_us": s.net.jitter_us, "net_seed": s.net.net_seed, "vanish_on_fin": s.net.vanish_on_fin},
         "client_mtu": s.client_mtu, "server_mtu": s.server_mtu,
         "vanish": s.vanish.name(), "vanish_at_us": s.vanish_at_us,
         "streams": s.streams.iter().map(|st| json!({"start_us": st.start_us, "client": half_json(&st.client), "server": half_json(&st.server)})).collect::<Vec<_>>()})
@@ -186,6 +191,7 @@ pub fn scenario_from(v: &Value) -> Scenario {
             latency_us: n["latency_us"].as_u64().unwrap_or(500),
             jitter_us: n["jitter_us"].as_u64().unwrap_or(0),
             net_seed: n["net_seed"].as_u64().unwrap_or(1),
+            vanish_on_fin: n["vanish_on_fin"].as_u64().unwrap_or(0) as u8,
         },
         client_mtu: v["client_mtu"].as_u64().map(|x| x as u16),
         server_mtu: v["server_mtu"].as_u64().map(|x| x as u16),
@@ -371,12 +377,18 @@ pub fn gen_sim_scenario(seed: u64, case: u64, only: Option<&str>, heavy_reorder:
             // the peer disappears while the stream has holes: some packets were lost before
             if rng.chance(1, 2) {
                 net.loss_ppm = *rng.pick(&[10_000u32, 50_000, 150_000]);
+                if rng.chance(1, 2) {
+                    net.vanish_on_fin = 1;
+                }
             }
         }
         "vanish_server_mute" => {
             vanish = VanishKind::ServerMute;
             if rng.chance(1, 2) {
                 net.loss_ppm = *rng.pick(&[10_000u32, 50_000, 150_000]);
+                if rng.chance(1, 2) {
+                    net.vanish_on_fin = 2;
+                }
             }
         }
         _ => {
@@ -427,6 +439,14 @@ pub fn gen_sim_scenario(seed: u64, case: u64, only: Option<&str>, heavy_reorder:
     }
     if vanish != VanishKind::None {
         vanish_at_us = rng.range(500, 6000);
+    }
+    if net.vanish_on_fin != 0 {
+        // transfers short enough to reach their end; the scheduled time is only the backstop
+        vanish_at_us = rng.range(50_000, 400_000);
+        for s in streams.iter_mut() {
+            s.client.write_len = rng.range(3000, 150_000);
+            s.server.write_len = rng.range(3000, 150_000);
+        }
     }
     let pick_mtu = |rng: &mut Rng| match rng.below(4) {
         0 => None,
@@ -510,6 +530,7 @@ pub struct NetStats {
     pub dropped_burst: u64,
     pub dropped_kth: u64,
     pub dropped_vanish: u64,
+    pub vanished_behind_fin: u64,
     pub duplicated: u64,
     pub forged: u64,
     pub reordered: u64,
@@ -524,6 +545,7 @@ pub struct NetCtl {
     server_mute: bool,
     index: u64,
     last_delivery_us: BTreeMap<SocketAddr, u64>,
+    lost_from: Vec<IpAddr>,
     pub stats: NetStats,
     cpu_start: Duration,
     wall_budget: Duration,
@@ -532,7 +554,7 @@ pub struct NetCtl {
 impl NetCtl {
     fn new(spec: NetSpec, wall_budget: Duration) -> Self {
         let rng = Rng::new(spec.net_seed);
-        NetCtl { spec, rng, server_ip: None, blackhole: false, server_mute: false, index: 0, last_delivery_us: BTreeMap::new(), stats: NetStats::default(), cpu_start: thread_cpu_time(), wall_budget }
+        NetCtl { spec, rng, server_ip: None, blackhole: false, server_mute: false, index: 0, last_delivery_us: BTreeMap::new(), lost_from: Vec::new(), stats: NetStats::default(), cpu_start: thread_cpu_time(), wall_budget }
     }
 
     /// monitor decision for one sent packet
@@ -580,7 +602,21 @@ impl NetCtl {
         }
         if self.spec.loss_ppm > 0 && self.rng.below(1_000_000) < self.spec.loss_ppm as u64 {
             self.stats.dropped_random += 1;
+            if self.spec.vanish_on_fin != 0 && !self.lost_from.contains(&p.source().ip()) {
+                self.lost_from.push(p.source().ip());
+            }
             return Command::Drop;
+        }
+        if self.spec.vanish_on_fin != 0 && self.lost_from.contains(&p.source().ip()) && announces_final_offset(p) {
+            // this packet still gets through, nothing after it does
+            if self.spec.vanish_on_fin == 1 {
+                self.blackhole = true;
+            } else if Some(p.source().ip()) == self.server_ip {
+                self.server_mute = true;
+            }
+            if self.blackhole || self.server_mute {
+                self.stats.vanished_behind_fin += 1;
+            }
         }
         Command::Pass
     }
@@ -632,6 +668,13 @@ fn thread_cpu_time() -> Duration {
 
 
 /// one-line description of a dc packet on the simulated wire (replay / --trace only)
+fn announces_final_offset(p: &Packet) -> bool {
+    use s2n_quic_dc::packet;
+    let mut bytes = p.transport.payload().to_vec();
+    let d = s2n_codec::DecoderBufferMut::new(&mut bytes);
+    matches!(d.decode_parameterized::<packet::Packet>(16), Ok((packet::Packet::Stream(s), _)) if s.final_offset().is_some())
+}
+
 fn describe_packet(p: &Packet) -> String {
     use s2n_quic_dc::packet;
     let mut bytes = p.transport.payload().to_vec();
@@ -1637,6 +1680,7 @@ fn account(sum: &mut Summary, sc: &Scenario, out: &Outcome, seed: u64, case: u64
     sum.count("packets_dropped_burst", out.net.dropped_burst);
     sum.count("packets_dropped_kth", out.net.dropped_kth);
     sum.count("packets_dropped_vanish", out.net.dropped_vanish);
+    sum.count("vanished_behind_a_final_offset_with_a_gap", out.net.vanished_behind_fin);
     sum.count("packets_duplicated", out.net.duplicated);
     sum.count("packets_reordered", out.net.reordered);
     sum.count(&format!("{t}_error_resolutions"), out.errors.len() as u64);
